@@ -242,7 +242,7 @@ fn actual_accessors(n: &SyntaxNode) -> Vec<(&'static str, Vec<SyntaxNode>)> {
         SyntaxKind::SliceElement => { let x = cast!(SliceElement); vec![("start", opt(x.start())), ("end", opt(x.end()))] }
         SyntaxKind::FieldSuffix => { let x = cast!(FieldSuffix); vec![("name", opt(x.name()))] }
         SyntaxKind::Bits => { let x = cast!(Bits); vec![("value_list", opt(x.value_list()))] }
-        SyntaxKind::List => { let x = cast!(List); vec![("value_list", opt(x.value_list()))] }
+        SyntaxKind::List => { let x = cast!(List); vec![("value_list", opt(x.value_list())), ("type", opt(x.r#type()))] }
         SyntaxKind::ValueList => { let x = cast!(ValueList); vec![("values", many(x.values()))] }
         SyntaxKind::Dag => { let x = cast!(Dag); vec![("operator", opt(x.operator())), ("arg_list", opt(x.arg_list()))] }
         SyntaxKind::DagArgList => { let x = cast!(DagArgList); vec![("args", many(x.args()))] }
@@ -315,7 +315,7 @@ fn expected_accessors(t: &T) -> Vec<(&'static str, Vec<&T>)> {
         "SliceElement" => vec![("start", nth(t, &["Value"], 0)), ("end", nth(t, &["Value"], 1))],
         "FieldSuffix" => vec![("name", first(t, &["Identifier"]))],
         "Bits" => vec![("value_list", first(t, &["ValueList"]))],
-        "List" => vec![("value_list", first(t, &["ValueList"]))],
+        "List" => vec![("value_list", first(t, &["ValueList"])), ("type", first(t, &TYPES))],
         "ValueList" => vec![("values", kids(t, &["Value"]))],
         "Dag" => vec![("operator", first(t, &["DagArg"])), ("arg_list", first(t, &["DagArgList"]))],
         "DagArgList" => vec![("args", kids(t, &["DagArg"]))],
